@@ -25,8 +25,8 @@ Definition observed (killed : bool) (k : nat) (full : string) : string :=
 (* one assertion-violation candidate: solve_end_to_end on the (possibly cut) outputs of the
    first and of the refined query, then _get_solver_output and the callback's dispatch.
    is_shutdown: executor.is_shutdown() when the callback runs. *)
-Definition handle (is_shutdown killed : bool) (k1 k2 : nat) (core_hit is_refined : bool)
+Definition handle (early_exit is_shutdown killed : bool) (k1 k2 : nat) (core_hit is_refined : bool)
   (out1 : string) (changes : bool) (out2 : string) : verdict :=
-  gen_callback_verdict
+  gen_callback_verdict early_exit
     (gen_get_solver_output is_shutdown
        (FRes (fst (solve_e2e core_hit is_refined (observed killed k1 out1) changes (observed killed k2 out2))))).
